@@ -6,7 +6,9 @@ https://github.com/scottcorgan/tiny-emitter
 from collections import defaultdict, namedtuple
 
 
-Listener = namedtuple('Listener', ['fn', 'ctx'])
+# once_for: the callback a once-listener was made for (off(name, callback) removes it as well)
+Listener = namedtuple('Listener', ['fn', 'ctx', 'once_for'])
+NOT_ONCE = object()
 
 
 class Emitter(object):
@@ -17,7 +19,7 @@ class Emitter(object):
     def on(self, name, callback, ctx=None):
         if ctx is None:
             ctx = {}
-        self._e[name].append(Listener(fn=callback, ctx=ctx))
+        self._e[name].append(Listener(fn=callback, ctx=ctx, once_for=NOT_ONCE))
         return self
 
     def once(self, name, callback, ctx=None):
@@ -30,9 +32,11 @@ class Emitter(object):
             onetime_listener.called = True
             self.off(name, onetime_listener)
             callback(*args, **ctx)
-        onetime_listener._ = callback
         onetime_listener.called = False
-        return self.on(name, onetime_listener, ctx)
+        # which callback the wrapper stands for is kept in the listener record - not in an attribute of
+        # the wrapper that off() would have to take on trust from any callable carrying one
+        self._e[name].append(Listener(fn=onetime_listener, ctx=ctx, once_for=callback))
+        return self
 
     def emit(self, name, *args):
         listeners = self._e[name][:]
@@ -45,7 +49,7 @@ class Emitter(object):
         live_events = []
         if events and callback is not None:
             for event in events:
-                if event.fn != callback and ((not hasattr(event.fn, '_')) or event.fn._ != callback):
+                if event.fn != callback and (event.once_for is NOT_ONCE or event.once_for != callback):
                     live_events.append(event)
 
         if live_events:
